@@ -2,6 +2,7 @@ package main
 
 import (
 	"fmt"
+	"hash/fnv"
 	"strings"
 	"sync"
 
@@ -173,6 +174,35 @@ func runC11(a args) error {
 			ans = append(ans, implMatch(tss, q.Topic, q.Sel))
 		}
 		out.Add(ce.App("C11Seq", c11Table(qs), coqQs(qs), coqBools(ans)), map[string]any{"kind": "seq", "store": "tiny", "queries": qs, "answers": ans, "corpus": true}, true, "kind:seq", "corpus")
+	}
+	// corpus: two templates whose compiled-template cache keys ("t_"+selector) share a 32-bit FNV-1a hash - the hash that picks
+	// the shard. Found by a birthday search; harmless as long as a shard compares whole keys.
+	{
+		seen := map[uint32]string{}
+		var s1, s2 string
+		for n := 0; s1 == ""; n++ {
+			sel := fmt.Sprintf("https://example.com/c%d/{id}", n)
+			h := fnv.New32a()
+			_, _ = h.Write([]byte("t_" + sel))
+			if o, ok := seen[h.Sum32()]; ok {
+				s1, s2 = o, sel
+			} else {
+				seen[h.Sum32()] = sel
+			}
+		}
+		topic := func(sel string) string { return strings.Replace(sel, "{id}", "1", 1) }
+		for _, size := range [][2]int64{{2, 1}, {16, 4}, {mercure.DefaultTopicSelectorStoreLRUMaxEntriesPerShard, mercure.DefaultTopicSelectorStoreLRUShardCount}} {
+			for _, order := range [][2]string{{s1, s2}, {s2, s1}} {
+				tss, _ := mercure.NewTopicSelectorStoreLRU(size[0], size[1])
+				x, y := order[0], order[1]
+				qs := []c11Q{{topic(x), x}, {topic(y), y}, {topic(x), y}, {topic(y), x}, {topic(x), x}}
+				var ans []bool
+				for _, q := range qs {
+					ans = append(ans, implMatch(tss, q.Topic, q.Sel))
+				}
+				out.Add(ce.App("C11Seq", c11Table(qs), coqQs(qs), coqBools(ans)), map[string]any{"kind": "seq", "store": fmt.Sprint(size), "queries": qs, "answers": ans, "corpus": "cache keys sharing a hash"}, true, "kind:seq", "corpus")
+			}
+		}
 	}
 	for i := 0; i < a.n; i++ {
 		tss, kind := c11Store(r)
